@@ -17,7 +17,8 @@ public:
 
     template<typename T, typename ...Args>
     typename std::enable_if_t<!Runnable::isRunnable<T>::value, void> start(T ptr, Args&&... args) {
-        m_thread = std::thread([&]() {
+        // `ptr` is a parameter of this function: the new thread needs its own copy
+        m_thread = std::thread([&, ptr]() mutable {
             ptr(std::forward<Args>(args)...);
             m_isFinished = true;
         });
